@@ -62,8 +62,8 @@ Theorem C15_mgs_returns_minimum : forall (I : mgs_inst) (status : nat -> mstatus
   (forall k, status k = MgOptimal -> exists a, sat a (encode_mgs I k)) ->
   (forall k, status k = MgInfeasible -> forall a, ~ sat a (encode_mgs I k)) ->
   forall lb n extra tried k, mgsm_loop status lb n extra = (tried, Some k) ->
-  (exists g, length g = k /\ genset_for I g) /\ (lb <= k)%nat /\
-  forall k' g, (lb <= k' < k)%nat -> length g = k' -> ~ genset_for I g.
+  (exists g, length g = k /\ genset_for I g) /\ (Nat.max 1 lb <= k)%nat /\
+  forall k' g, (Nat.max 1 lb <= k' < k)%nat -> length g = k' -> ~ genset_for I g.
 Proof. exact mgs_returns_minimum. Qed.
 Print Assumptions C15_mgs_returns_minimum.
 
@@ -74,8 +74,8 @@ Theorem C15_mgs_returns_minimum_with_partition_constraints : forall (I : mgs_ins
   (forall k, status k = MgOptimal -> exists a, sat a (encode_mgs I k)) ->
   (forall k, status k = MgInfeasible -> forall a, ~ sat a (encode_mgs I k)) ->
   forall lb n extra tried k, mgsm_loop status lb n extra = (tried, Some k) ->
-  (exists g, length g = k /\ genset (mg_mult I) (mg_numbers I) (mg_total I) g /\ (mg_int I = true -> Forall is_int g)) /\ (lb <= k)%nat /\
-  forall k' g, (lb <= k' < k)%nat -> length g = k' -> ~ genset_for I g.
+  (exists g, length g = k /\ genset (mg_mult I) (mg_numbers I) (mg_total I) g /\ (mg_int I = true -> Forall is_int g)) /\ (Nat.max 1 lb <= k)%nat /\
+  forall k' g, (Nat.max 1 lb <= k' < k)%nat -> length g = k' -> ~ genset_for I g.
 Proof. exact mgs_returns_minimum_parts. Qed.
 Print Assumptions C15_mgs_returns_minimum_with_partition_constraints.
 
@@ -172,12 +172,13 @@ Theorem C15_complement_removal_old_refuted : exists numbers total g,
 Proof. exact complement_removal_old_refuted. Qed.
 Print Assumptions C15_complement_removal_old_refuted.
 
-(* solve() as it is now (after fixes 03febc7, 2966290, 883b781; range lowerbound .. len(numbers)+1+extra_cuts): an answer k means the model for k was optimal and every
+(* solve() as it is now (after fixes 03febc7, 2966290, 883b781, 2a5d8e1; range max(1, lowerbound) .. len(numbers)+1+extra_cuts;
+   [lb : nat] stands for max(0, lowerbound) of the Python int, mgsm_range_z): an answer k means the model for k was optimal and every
    size from the lower bound up to k-1 was proven infeasible: k is the least feasible size >= lowerbound *)
 Theorem C15_loop_sound : forall (feasible : nat -> Prop) (status : nat -> mstatus),
   (forall k, status k = MgOptimal -> feasible k) -> (forall k, status k = MgInfeasible -> ~ feasible k) ->
   forall lb n extra tried k, mgsm_loop status lb n extra = (tried, Some k) ->
-  feasible k /\ In k (mgsm_range lb n extra) /\ (lb <= k)%nat /\ forall k', (lb <= k' < k)%nat -> ~ feasible k'.
+  feasible k /\ In k (mgsm_range lb n extra) /\ (Nat.max 1 lb <= k)%nat /\ forall k', (Nat.max 1 lb <= k' < k)%nat -> ~ feasible k'.
 Proof. exact mgsm_loop_sound. Qed.
 Print Assumptions C15_loop_sound.
 
@@ -218,6 +219,16 @@ Theorem C15_loop_old_upper_end_refuted2 : exists numbers total,
   ~ In 3%nat (mgsm_range_old 1 (length numbers)) /\ In 3%nat (mgsm_range 1 (length numbers) 0).
 Proof. exact mgsm_loop_old_upper_end_refuted2. Qed.
 Print Assumptions C15_loop_old_upper_end_refuted2.
+
+(* FIXED FINDING (mgs_lowerbound_below_one, 2a5d8e1): the search that started at the lower bound itself met the empty model
+   k = 0 (kModelEmpty, inconclusive) for lowerbound 0 and ended unsolved; the search as it is starts at max(1, lowerbound) --
+   also for negative lower bounds -- and answers *)
+Theorem C15_loop_from_lowerbound_zero_old_refuted : exists (status : nat -> mstatus) n,
+  status 0%nat = MgOther /\ status 1%nat = MgOptimal /\
+  mgsm_loop_from_lb status 0 n 0 = ([0%nat], None) /\ mgsm_loop status 0 n 0 = ([1%nat], Some 1%nat) /\
+  mgsm_range_z (-3) n 0 = mgsm_range 0 n 0.
+Proof. exact mgsm_loop_from_lb_zero_refuted. Qed.
+Print Assumptions C15_loop_from_lowerbound_zero_old_refuted.
 
 (* FIXED FINDING (mgs_skips_inconclusive, 03febc7): the old loop skipped an inconclusive run and reported a larger size
    as solved; the loop as it is now ends unsolved on the same status history *)
@@ -293,9 +304,9 @@ Definition ex_mgs_a (v : var) : Q :=
   | [i; j] => if (i =? j)%N then (if (vfam v =? fX)%N then 1 else if (vfam v =? fPi)%N then (if (i =? 0)%N then 1 else 2) else 0) else 0
   | _ => 0
   end.
-Example C15_nonvacuous_genset : sat ex_mgs_a (encode_mgs ex_mgs 2) /\ mgsm_loop (fun k => if (k =? 2)%nat then MgOptimal else MgInfeasible) 1 3 0 = ([1; 2]%nat, Some 2%nat) /\ mgsm_range 1 3 2 = [1; 2; 3; 4; 5; 6]%nat.
+Example C15_nonvacuous_genset : sat ex_mgs_a (encode_mgs ex_mgs 2) /\ mgsm_loop (fun k => if (k =? 2)%nat then MgOptimal else MgInfeasible) 1 3 0 = ([1; 2]%nat, Some 2%nat) /\ mgsm_range 1 3 2 = [1; 2; 3; 4; 5; 6]%nat /\ mgsm_range 0 3 0 = [1; 2; 3; 4]%nat /\ mgsm_range_z (-2) 1 0 = [1; 2]%nat.
 Proof.
-  split; [split|split; reflexivity].
+  split; [split|repeat split; reflexivity].
   - apply Forall_dec_cols. vm_compute. reflexivity.
   - apply Forall_dec_rows. vm_compute. reflexivity.
 Qed.
